@@ -143,7 +143,7 @@ def factory_vd(ns, props, relational=False, **kw):
     return f
 
 
-def factory_vd_inplace(ns, props, **kw):
+def factory_vd_inplace(ns, props, then_break=False, **kw):
     """two calls with the SAME trusted envelope object whose content is replaced in place between the calls
     (a client that updates its trusted metadata object): the second verdict must follow the new content"""
     def f(eng):
@@ -165,6 +165,11 @@ def factory_vd_inplace(ns, props, **kw):
                 tp = dict(tpA, T=T_)
                 outs.append(run_call(it, A.verify_delegation, [tpA['namev'], tpA['Um'], Tm], {'gpg': tpA['gpg']}))
                 ors.append(oracle_vd(it, tp))
+            out3 = None
+            if then_break:
+                # the same trusted object once more, now structurally broken (its signed part removed): must be refused as malformed input
+                del Tm['signed']
+                out3 = run_call(it, A.verify_delegation, [tpA['namev'], tpA['Um'], Tm], {'gpg': tpA['gpg']})
             m = path_model(eng)
             if m is None:
                 return None
@@ -174,16 +179,20 @@ def factory_vd_inplace(ns, props, **kw):
                 c1 = mk_case_vd(eng, tpA, mm)
                 Tm['signed'] = tpB['T']['signed']
                 c2 = mk_case_vd(eng, tpA, mm)
-                return dict(scenario='vd_inplace', name=c1['name'], U=c1['U'], gpg=c1['gpg'], T1=c1['T'], T2=c2['T'], env=c2['env'])
+                return dict(scenario='vd_inplace', then_break=then_break, name=c1['name'], U=c1['U'], gpg=c1['gpg'], T1=c1['T'], T2=c2['T'], env=c2['env'])
             obs = []
             for i, (out, o) in enumerate(zip(outs, ors)):
                 if is_ret(out):
                     obs.append(oblige(eng, f'call {i + 1} (trusted metadata object updated in place between calls) accepted => the CURRENT trusted content justifies it', z3.Not(o['accept_lib']), mk))
                 else:
                     obs.append(oblige(eng, f'call {i + 1} (trusted metadata object updated in place between calls) rejected => the current trusted content does not justify acceptance', o['accept_strict'], mk))
+            if out3 is not None:
+                if is_ret(out3) or not exc_in(out3, ('TypeError', 'ValueError')):
+                    obs.append(oblige(eng, 'call 3 with the same trusted object, now without its signed part, is refused as malformed input (TypeError / ValueError)', True, mk))
+                outs = outs + [out3]
             w = mk(m)
             w['predicted'] = [predicted(o) for o in outs]
-            return record(eng, outs[1], obs, w, ['/'.join('A' if is_ret(o) else 'R' for o in outs)], okey_='/'.join(okey(o) for o in outs))
+            return record(eng, outs[1], obs, w, ['/'.join('A' if is_ret(o) else 'R' for o in outs[:2])], okey_='/'.join(okey(o) for o in outs))
         return harness
     return f
 
@@ -266,12 +275,19 @@ def run_vd_inplace(case):
         Tm.clear()
         Tm.update(T2)           # same object, new content
         outs.append(CC.outcome_of(A.verify_delegation, name, U, Tm, gpg=gpg))
+        if case.get('then_break'):
+            Tm.pop('signed', None)          # same object, now structurally broken
+            outs.append(CC.outcome_of(A.verify_delegation, name, U, Tm, gpg=gpg))
     return {'outcomes': outs}
 
 
 def judge_vd_inplace(case, obs, props):
     if 'outcomes' not in obs:
         return None
+    if case.get('then_break') and len(obs['outcomes']) > 2:
+        o3 = obs['outcomes'][2]
+        if o3['kind'] == 'ret' or not ({'TypeError', 'ValueError'} & set(o3.get('mro', []))):
+            return f'call 3 with the same trusted object, now without its signed part: {"accepted" if o3["kind"] == "ret" else "raised " + o3["cls"]} instead of being refused as malformed input (TypeError / ValueError)'
     for i, (oc, tw) in enumerate(zip(obs['outcomes'], (case['T1'], case['T2']))):
         single = dict(name=case['name'], U=case['U'], T=tw, gpg=case['gpg'], env=case['env'])
         why = judge_vd(single, {'outcome': oc, 'unchanged': True, 'stripped': None}, props)
